@@ -72,10 +72,25 @@ impl<T: Corpus> TypeOps for Ops<T> {
         let mut fuel = fuel;
         let v = T::gen(rng, &mut fuel);
         let model = v.model();
-        let enc = catch(|| {
-            let mut b = IDLBuilder::new();
-            b.arg(&v).map(|_| ())?;
-            b.serialize_to_vec()
+        // every public way of encoding one argument (they share the thread-local type memo but not all the set-up code)
+        let api = rng.below(7);
+        let enc = catch(|| match api {
+            0 => candid::encode_one(&v),
+            1 => candid::encode_args((&v,)),
+            2 => candid::utils::encode_args_ref(&(&v,)),
+            3 => {
+                let mut out = Vec::new();
+                candid::write_args(&mut out, (&v,)).map(|_| out)
+            }
+            4 => {
+                let mut out = Vec::new();
+                candid::utils::write_args_ref(&mut out, &(&v,)).map(|_| out)
+            }
+            _ => {
+                let mut b = IDLBuilder::new();
+                b.arg(&v).map(|_| ())?;
+                b.serialize_to_vec()
+            }
         });
         let bytes = match enc {
             Err(p) => {
@@ -96,7 +111,13 @@ impl<T: Corpus> TypeOps for Ops<T> {
             }
             Ok(Ok(b)) => b,
         };
+        let dapi = rng.below(4);
         let dec = catch(|| -> Result<(T, bool, Result<(), String>), String> {
+            match dapi {
+                0 => return candid::decode_one::<T>(&bytes).map(|w| (w, true, Ok(()))).map_err(|e| e.to_string()),
+                1 => return candid::decode_args::<(T,)>(&bytes).map(|w| (w.0, true, Ok(()))).map_err(|e| e.to_string()),
+                _ => {}
+            }
             let mut de = IDLDeserialize::new(&bytes).map_err(|e| e.to_string())?;
             let w: T = de.get_value().map_err(|e| e.to_string())?;
             let done = de.is_done();
